@@ -100,3 +100,15 @@ Definition pager_parser_agrees_certified_stmt : Prop :=
     forall input f1 f2, tokens_in_range g input -> no_eof g input ->
       finished (run g (induced g pg) f1 input) -> finished (run g B f2 input) ->
       same_verdict (run g (induced g pg) f1 input) (run g B f2 input).
+
+(* everything together, for every well-formed LR(1) grammar, every oracle of hash orders and every
+   StorageT bound: with enough fuel the mirrored construction either stops at a StorageT size
+   check, or returns a graph whose induced automaton is validated and conflict-free *)
+Definition pager_construction_correct_stmt : Prop :=
+  forall g nl fs max_st orders, loop_pre g nl fs -> lr1_grammar g ->
+    exists fuel,
+      (exists pg, pager_mirror g nl fs max_st fuel orders = Done pg /\
+         validS g (induced g pg) = true /\ validC g (induced g pg) = true /\
+         validE g (induced g pg) = true /\ single_candidate g (induced g pg) = true) \/
+      (pager_mirror g nl fs max_st fuel orders = Panic /\
+       (max_st <= N.of_nat (S (S (fuel * length (all_syms g)))))%N).
